@@ -136,6 +136,27 @@ Definition mk_parent (p : bytes) : option bytes :=
 
 Definition dir_mode (o : copts) : N := match o_mode o with Some m => N.land m 511 | None => 493 end.
 
+(* the slow path of MkdirAll, given the recursive call *)
+Definition mkdir_slow (recur : bytes -> M (list bytes)) (c : ctx) (o : copts) (p : bytes) : M (list bytes) :=
+  created <~ (match mk_parent p with
+              | Some par => recur par
+              | None => ret []
+              end) ;;
+  r1 <~ sys (fun f => sys_lstat c f p) ;;
+  if match r1 with RStat _ n1 => kind_is_dir n1 | _ => false end then ret created
+  else
+    r2 <~ sys (fun f => sys_mkdir c f p (dir_mode o)) ;;
+    match r2 with
+    | ROk =>
+      chown_fixed c o p ;;;
+      utimes_opt c p (o_utime o) ;;;
+      ret (created ++ [p])
+    | _ =>
+      r3 <~ sys (fun f => sys_lstat c f p) ;;
+      if match r3 with RStat _ n3 => kind_is_dir n3 | _ => false end then ret created
+      else fail E_SYS
+    end.
+
 (* returns the created directories, oldest first *)
 Fixpoint mkdir_all (fuel : nat) (c : ctx) (o : copts) (p : bytes) : M (list bytes) :=
   match fuel with
@@ -144,25 +165,7 @@ Fixpoint mkdir_all (fuel : nat) (c : ctx) (o : copts) (p : bytes) : M (list byte
     r <~ sys (fun f => sys_stat c f p) ;;
     match r with
     | RStat _ n => if kind_is_dir n then ret [] else fail E_NOTDIR
-    | _ =>
-      created <~ (match mk_parent p with
-                  | Some par => mkdir_all k c o par
-                  | None => ret []
-                  end) ;;
-      r1 <~ sys (fun f => sys_lstat c f p) ;;
-      if match r1 with RStat _ n1 => kind_is_dir n1 | _ => false end then ret created
-      else
-        r2 <~ sys (fun f => sys_mkdir c f p (dir_mode o)) ;;
-        match r2 with
-        | ROk =>
-          chown_fixed c o p ;;;
-          utimes_opt c p (o_utime o) ;;;
-          ret (created ++ [p])
-        | _ =>
-          r3 <~ sys (fun f => sys_lstat c f p) ;;
-          if match r3 with RStat _ n3 => kind_is_dir n3 | _ => false end then ret created
-          else fail E_SYS
-        end
+    | _ => mkdir_slow (mkdir_all k c o) c o p
     end
   end.
 
